@@ -5,5 +5,6 @@ CONSTANTS
  CheckMode = "pubshare"
  MCCfgs <- Cfg3
  MaxForge = 1
+ Combine = FALSE
 INVARIANTS TypeOK I1_LockSound I2_SenderBound I3_NoPassWithBad I4_HonestNotBlamed I4_OnlyFaultsFail I4_NoStall I4_FaultFreeCompletes LockAgree
 CHECK_DEADLOCK FALSE
